@@ -1,6 +1,11 @@
-(* C13 — property theorems only (proofs in C01/Proofs.v): evaluation is pure on the scope-stack machine of coq/C01/Impl.v. *)
+(* C13 — property theorems only: evaluation is pure on the scope-stack machine of coq/C01/Impl.v (proofs in C01/Proofs.v);
+   the push / pop discipline that makes it so, construct by construct, on the counting machine (C13/Counting.v, proofs in
+   C13/CountingProofs.v); the parser's scope discipline (C13/ParseDiscipline.v, C13/ParseDisciplineProofs.v); the scope of a
+   decision's logic in the model-level ImplModel of C04 (C13/InvocationProofs.v). *)
 From Coq Require Import List ZArith NArith Bool.
 From DV Require Import C01.Syntax C01.Spec C01.Impl C01.Proofs C13.ParseScope C13.ParseScopeProofs.
+From DV Require Import C13.Counting C13.CountingProofs C13.ParseDiscipline C13.ParseDisciplineProofs.
+From DV Require C04.Model C13.InvocationProofs.
 Import ListNotations.
 Open Scope Z_scope.
 
@@ -30,8 +35,127 @@ Example C13_nonvacuous :
   run_impl 20 S e = (VCtx [(103%N, vnum 5)], S).
 Proof. vm_compute. reflexivity. Qed.
 
+(* ======================= the push / pop discipline of the evaluator =======================
+   run_counting V cartf: the machine of C01/Impl.v with every Scope::push and Scope::pop counted; cstep V cartf r = ONE construct
+   over an arbitrary evaluator r of its sub-expressions and of function bodies; code = the placements of builders.rs / iterations.rs.
+   balanced st st' := exists k, pushes st' = pushes st + k /\ pops st' = pops st + k /\ stk st' = stk st. *)
+
+(* per construct, over ALL outcomes of the sub-evaluations: r is any function (it may answer null, a non-boolean, a poisoned value,
+   a function with more formal names than arguments, an empty or null domain, a non-list filter operand ...) that is balanced itself *)
+Theorem C13_every_path_balanced : forall (cartf : list (N * list value) -> list ctx) (r : cstate -> expr -> value * cstate),
+  (forall st e, balanced st (snd (r st e))) ->
+  forall st e, balanced st (snd (cstep code cartf r st e)).
+Proof. exact every_path_balanced. Qed.
+
+Theorem C13_run_counting_balanced : forall cartf f st e,
+  exists k, pushes (snd (run_counting code cartf f st e)) = (pushes st + k)%nat /\
+            pops (snd (run_counting code cartf f st e)) = (pops st + k)%nat /\
+            stk (snd (run_counting code cartf f st e)) = stk st.
+Proof. intros cartf f st e. exact (run_counting_balanced cartf f st e). Qed.
+
+(* the counting machine IS the machine: same value, same stack *)
+Theorem C13_counting_is_run : forall cartf f st e,
+  run cartf f (stk st) e = (fst (run_counting code cartf f st e), stk (snd (run_counting code cartf f st e))).
+Proof. exact counting_is_run. Qed.
+
+(* hence C13_stack_restored, this time as a consequence of pushes = pops on every path (not of the value semantics) *)
+Theorem C13_stack_restored_by_discipline : forall f S e,
+  snd (run_impl f S e) = S /\
+  pushes (snd (run_counting code cart_impl f (cstart S) e)) = pops (snd (run_counting code cart_impl f (cstart S) e)).
+Proof.
+  intros f S e. split; [exact (stack_restored_by_discipline cart_impl f S e) | exact (proj1 (run_counting_counts cart_impl f S e))].
+Qed.
+
+(* the discipline is a property of WHERE the pushes and pops sit: the seeded placements, expressed as variants of the same layer,
+   break it, each on its error path and only there.  counts x = (pushes, pops, depth of the stack left) from a stack of depth 1 *)
+Theorem C13_seeded_C13_b_refuted :      (* also C01_d: (function(a, b) a)(1), f(b: 1) *)
+  counts (run_counting seeded_C13_b cart_impl 10 (cstart [[]]) w_too_few_args) = (1, 0, 2)%nat /\
+  counts (run_counting seeded_C13_b cart_impl 10 (cstart [[]]) w_named_missing) = (1, 0, 2)%nat /\
+  counts (run_counting seeded_C13_b cart_impl 10 (cstart [[]]) w_enough_args) = (1, 1, 1)%nat /\
+  counts (run_counting code cart_impl 10 (cstart [[]]) w_too_few_args) = (0, 0, 1)%nat.
+Proof. exact seeded_C13_b_refuted. Qed.
+
+Theorem C13_seeded_C13_d_refuted :      (* every x in [1, true] satisfies x *)
+  counts (run_counting seeded_C13_d cart_impl 10 (cstart [[]]) w_every_non_boolean) = (2, 1, 2)%nat /\
+  counts (run_counting seeded_C13_d cart_impl 10 (cstart [[]]) w_every_boolean) = (2, 2, 1)%nat /\
+  counts (run_counting code cart_impl 10 (cstart [[]]) w_every_non_boolean) = (2, 2, 1)%nat.
+Proof. exact seeded_C13_d_refuted. Qed.
+
+Theorem C13_seeded_C13_a_refuted :      (* [{item: 1}][item = 1] *)
+  counts (run_counting seeded_C13_a cart_impl 10 (cstart [[]]) w_filter_item_entry) = (2, 1, 2)%nat /\
+  counts (run_counting seeded_C13_a cart_impl 10 (cstart [[]]) w_filter_plain) = (3, 3, 1)%nat /\
+  counts (run_counting code cart_impl 10 (cstart [[]]) w_filter_item_entry) = (2, 2, 1)%nat.
+Proof. exact seeded_C13_a_refuted. Qed.
+
+(* ======================= the parser's scope discipline =======================
+   pacts f e (C13/ParseScope.v) transliterates the scope actions of the reduce actions of feel-parser/src/parser.rs in reduction
+   order (the check compares it with the action trace of the real parser).  walk d acts: d = number of contexts this parse has
+   pushed and not yet popped; None as soon as an action would pop or write a context of the caller. *)
+Theorem C13_parse_discipline : forall f e d, walk d (pacts f e) = Some d.
+Proof. exact walk_pacts. Qed.
+
+(* at every moment of a successful parse the scope is the caller's scope with the parser's own contexts on top *)
+Theorem C13_parse_never_touches_callers_scope : forall f e pre suf S, pacts f e = pre ++ suf -> exists T, pexec pre S = T ++ S.
+Proof. exact parse_never_touches_callers_scope. Qed.
+
+Theorem C13_parse_pushes_equal_pops : forall f e, count_push (pacts f e) = count_pop (pacts f e).
+Proof. exact parse_pushes_equal_pops. Qed.
+
+(* not by construction: pacts is one member of a family of placements (pacts_v false), and the other member - one push per
+   quantified variable, one pop: the seeded change C13_c - keeps every clause for one variable and loses them for two *)
+Theorem C13_pacts_is_placement_false : forall f e, pacts_v false f e = pacts f e.
+Proof. exact pacts_v_false. Qed.
+
+Theorem C13_seeded_C13_c_refuted :      (* some x in [1] satisfies x = 1   /   some x in [1], y in [2] satisfies x = y *)
+  walk 0 (pacts_v true 10 w_one_variable) = Some 0%nat /\
+  pexec (pacts_v true 10 w_one_variable) [[7%N]] = [[7%N]] /\
+  walk 0 (pacts_v true 10 w_two_variables) = Some 1%nat /\
+  pexec (pacts_v true 10 w_two_variables) [[7%N]] = [[101%N]; [7%N]] /\
+  count_push (pacts_v true 10 w_two_variables) = 2%nat /\ count_pop (pacts_v true 10 w_two_variables) = 1%nat /\
+  pexec (pacts 10 w_two_variables) [[7%N]] = [[7%N]].
+Proof. exact seeded_C13_c_refuted. Qed.
+
+(* ======================= model level: the scope of a decision's logic in the ImplModel of C04 =======================
+   C04.Model.tev threads the (flattened) scope through the evaluation of a decision's logic: invocations of knowledge models
+   (positional / boxed), of decision services (svc: arbitrary), boxed contexts with and without result entry, relations.
+   impl_invoke / body take the caller's input context by value: the scope that an invocation could disturb is this one. *)
+Theorem C13_invocation_restores_scope : forall f svc sc e, snd (C04.Model.tev false f svc sc e) = sc.
+Proof. exact C13.InvocationProofs.invocation_restores_scope. Qed.
+
+Theorem C13_invocations_repeatable : forall f svc sc l,
+  C04.Model.evs (C04.Model.tev false f svc) sc l = (map (fun e => fst (C04.Model.tev false f svc sc e)) l, sc).
+Proof. exact C13.InvocationProofs.invocations_repeatable. Qed.
+
+Theorem C13_decision_logic_restores_scope : forall svc sc e,
+  C04.Model.tev false C04.Model.TFUEL svc sc e = (C04.Model.teval svc sc e, sc).
+Proof. exact C13.InvocationProofs.decision_logic_restores_scope. Qed.
+
+(* the variant in which a boxed context leaves its entries behind (the pinned commit; the seeded change C04_d for contexts with a
+   result entry): {k: 1, <result>: k} *)
+Theorem C13_leaky_context_orig_refuted :
+  let e := C04.Model.ECtx [(2001%N, C04.Model.enum 1)] (Some (C04.Model.EVar 2001%N)) in
+  snd (C04.Model.tev true 5 (fun _ _ => C04.Model.VNull) [] e) = [(2001%N, C04.Model.vnum 1)] /\
+  snd (C04.Model.tev false 5 (fun _ _ => C04.Model.VNull) [] e) = [].
+Proof. exact C13.InvocationProofs.leaky_context_orig_refuted. Qed.
+
 Print Assumptions C13_stack_restored.
 Print Assumptions C13_repeatable.
 Print Assumptions C13_value_is_semantic.
 Print Assumptions C13_parse_scope_balanced.
 Print Assumptions C13_nonvacuous.
+Print Assumptions C13_every_path_balanced.
+Print Assumptions C13_run_counting_balanced.
+Print Assumptions C13_counting_is_run.
+Print Assumptions C13_stack_restored_by_discipline.
+Print Assumptions C13_seeded_C13_b_refuted.
+Print Assumptions C13_seeded_C13_d_refuted.
+Print Assumptions C13_seeded_C13_a_refuted.
+Print Assumptions C13_parse_discipline.
+Print Assumptions C13_parse_never_touches_callers_scope.
+Print Assumptions C13_parse_pushes_equal_pops.
+Print Assumptions C13_pacts_is_placement_false.
+Print Assumptions C13_seeded_C13_c_refuted.
+Print Assumptions C13_invocation_restores_scope.
+Print Assumptions C13_invocations_repeatable.
+Print Assumptions C13_decision_logic_restores_scope.
+Print Assumptions C13_leaky_context_orig_refuted.
